@@ -81,9 +81,10 @@ def cascade_oracle(c, ans):
     return []
 
 
-def check(run):
+def label_dependent_cases(run):
+    """cascades and shrinking values: auto-sized pushes whose final width is decided by the layout"""
     from checks import c01
-    cases = gen(run)
+    cases = []
     for prog, order, cat in c01.cascade_programs(run.rng, 30 if run.tier == "thorough" else 14):
         body = prog[:-1]                                   # without C01's probe
         exprs = []
@@ -108,6 +109,11 @@ def check(run):
             body = [("push", G.climb([("num", K), "-", ("lbl", "L")])), ("push", ("lbl", "L"))] + fill + [("label", "L"), ("op", "jumpdest", None)]
             cases.append(mk_case(body, "shrinking", cascade=[(-1, K), (1, 0)]))
             cases.append(mk_case([("defi", "m", [], body), ("macro", "m", [])], "shrinking-in-macro", cascade=[(-1, K), (1, 0)]))
+    return cases
+
+
+def check(run):
+    cases = gen(run) + label_dependent_cases(run)
     return asmfam.run_family(run, "C07", cases, oracle,
                              "shrinking values (%push(K - L) that needs its wider early width no longer at the end: bytes must still agree with the layout); cascades (auto-sized pushes of L*m+k that settle only after several widening rounds: one push growing twice, searched 2-4 push programs needing more rounds than pushes; exact value checked against the decoded position of the label); values 256^k-1, 256^k, 256^k+1 for k=0..33, negatives, random; each in up to 11 spellings (4 radices, sum, product, parenthesised, expression macro, macro argument, before/after labels); distinct = distinct sources",
                              "auto-sized pushes")
